@@ -428,6 +428,7 @@ fn count_seqs(m: u64, k: usize) -> u64 {
 
 pub fn check(tier: &str) -> i32 {
     let mut rep = Report::new("C02", tier, "exploration");
+    rep.case_limit = Duration::from_secs(30);
     let thorough = rep.thorough();
     rep.assume("names are given to the encoder in the crate's escaped dotted form (RFC 6763 4.3: '\\.' and '\\\\'); what 'was added' is the label sequence an independent unescaper derives from that string");
     let menu = entry_menu();
